@@ -74,17 +74,29 @@ ENTRIES = [0x86] + [8 * n + 6 for n in range(1, 16)]
 
 
 class Entry(Int):
-    """address of one of the 16 CALLS entries; other addresses up to 86H are not generated, larger ones
-    cannot be encoded"""
+    """address of one of the 16 CALLS entries.  Rejectable: addresses beyond 86H and the address 0006H,
+    which is what n = 0 would be by the 8n+6 rule but is not an entry (n = 0 calls 0086H); other
+    addresses below 86H are not generated"""
 
     def __init__(self):
-        Int.__init__(self, 0x0E, 0x86, rej_lo=False, holes=set(range(0x0E, 0x87)) - set(ENTRIES))
+        Int.__init__(self, 0x0E, 0x86, rej_lo=False, holes=set(range(0x0E, 0x87)) - set(ENTRIES), far=False)
+
+    def classify(self, v, pc=0, vals=None):
+        if v in ENTRIES:
+            return "ok"
+        return "rej" if v == 6 or v > 0x86 else "excl"
 
     def boundary_ok(self):
         return list(ENTRIES)
 
+    def boundary_rej(self):
+        return [0x87, 0x88, 0x8E, 6, 0x10086]
+
     def draw_ok(self, d):
         return d.choice(ENTRIES)
+
+    def draw_rej(self, d):
+        return d.choice(self.boundary_rej() + [0x86 + 8 * d.int(1, 400)])
 
 
 def build():
